@@ -191,3 +191,44 @@ Proof.
   - apply l2_conj_pair; assumption.
   - intros sigma x Hs Hx. eexists. split; [cbn [needs_scalar]; reflexivity|]. apply l2_factory_prox; auto.
 Qed.
+
+(* ================= proximal_l1_l2(space, lam, g) through translation and left scaling ================= *)
+Lemma vsub_as_translated n : forall x g c : Rvec, length x = n -> length g = n -> length c = n ->
+  vsub x c = vadd g (vsub (vsub x g) c).
+Proof. vind n. unfv; cbn [vmap2]; f_equal; [numR; ring | apply IHn; lia]. Qed.
+
+(* proximal_l1_l2(space, lam, g)(sigma)(x) = g + prox_{GroupL1Norm, sigma*lam}(x - g) *)
+Lemma prox_l1_l2_as_rules m d lam g s x : length x = (d * m)%nat -> length g = (d * m)%nat ->
+  @prox_l1_l2 R _ _ m d lam (Some g) s x = vadd g (@prox_l1_l2 R _ _ m d 1 None (s * lam) (vsub x g)).
+Proof.
+  intros Hx Hg. unfold prox_l1_l2, gsub. numS.
+  set (diff := vsub x g). assert (Ld : length diff = (d * m)%nat) by (unfold diff; auto with vlen).
+  destruct (chunks_rows m d diff Ld) as [RD CD].
+  assert (E : map (fun a => nmax (a / (s * lam)) 1) (pw_norm m d diff)
+            = map (fun a => nmax (a / (s * lam * 1)) 1) (pw_norm m d diff)).
+  { apply map_ext. intros a. numR. replace (s * lam * 1) with (s * lam) by ring. reflexivity. }
+  rewrite <- E. set (den := map (fun a => nmax (a / (s * lam)) 1) (pw_norm m d diff)).
+  assert (Lden : length den = m).
+  { unfold den, pw_norm, pw_normsq. rewrite !map_length. apply (cn_len d). assumption. }
+  apply (vsub_as_translated (d * m)); auto.
+  apply (concat_len d m). apply (crows_rows d m den _ RD Lden).
+Qed.
+
+Theorem l1_l2_factory_sound m d lam (g wb : Rvec) : 0 < lam -> (1 <= d)%nat -> allpos wb -> length wb = m ->
+  length g = (d * m)%nat ->
+  let w := concat (repeat wb d) in
+  sound (d * m) w (fun z => escal lam (@leaf_val R _ _ (FGroupL1 m d true) w (vsub z g)))
+        (fun s x => needs_scalar s (fun sg => Ok (@prox_l1_l2 R _ _ m d lam (Some g) sg x))).
+Proof.
+  intros Hl Hd Pw Lw Hg w.
+  assert (Lww : length w = (d * m)%nat).
+  { unfold w. clear -Lw. induction d; cbn [repeat concat]; [reflexivity|]. rewrite app_length, IHd. lia. }
+  assert (S0 : sound (d * m) w (@leaf_val R _ _ (FGroupL1 m d true) w)
+                 (fun s x => needs_scalar s (fun sg => Ok (@prox_l1_l2 R _ _ m d 1 None sg x)))).
+  { intros sigma x Hs Hx. eexists. split; [cbn [needs_scalar]; reflexivity|]. apply groupl1_leaf_prox; auto. }
+  pose proof (sound_translation (d * m) w _ _ g Lww Hg (sound_left_scaling (d * m) w _ _ lam Hl Lww S0)) as S1.
+  intros sigma x Hs Hx. destruct (S1 sigma x Hs Hx) as (p & Ep & Pp).
+  exists p. split; [|exact Pp].
+  cbn [needs_scalar]. rewrite (prox_l1_l2_as_rules m d lam g sigma x Hx Hg).
+  unfold prox_translation in Ep. cbn [sig_scale needs_scalar rmap] in Ep. numR. exact Ep.
+Qed.
